@@ -621,15 +621,21 @@ pub fn run(ctx: &Ctx) -> i32 {
   }
   // out-of-range hash on the checked entry points
   for (d, h) in [0u8, 3, 12, 28].iter().flat_map(|&d| out_of_range_hashes(d).into_iter().map(move |h| (d, h))) {
-    total.stratum("out-of-range", 1, 3);
     let layer = nested::get_or_create(d);
-    for (api, ok) in [
-      ("external_edge", guarded(|| layer.external_edge(h, 1)).is_ok()),
-      ("external_edge_sorted", guarded(|| layer.external_edge_sorted(h, 1)).is_ok()),
-      ("external_edge_struct", guarded(|| layer.external_edge_struct(h, 1).get_corner(&Cardinal::S)).is_ok()),
-    ] {
-      if ok {
-        total.viol(Viol { api: api.into(), kind: "out-of-range-accepted".into(), case: case_json(d, h, 1), expected: "panic".into(), actual: "returned".into() });
+    // every delta_depth of the domain
+    for delta in 1..=3u8 {
+      if d + delta > 29 {
+        continue;
+      }
+      total.stratum("out-of-range", 1, 3);
+      for (api, ok) in [
+        ("external_edge", guarded(|| layer.external_edge(h, delta)).is_ok()),
+        ("external_edge_sorted", guarded(|| layer.external_edge_sorted(h, delta)).is_ok()),
+        ("external_edge_struct", guarded(|| layer.external_edge_struct(h, delta).get_corner(&Cardinal::S)).is_ok()),
+      ] {
+        if ok {
+          total.viol(Viol { api: api.into(), kind: "out-of-range-accepted".into(), case: case_json(d, h, delta), expected: "panic".into(), actual: "returned".into() });
+        }
       }
     }
   }
